@@ -90,6 +90,17 @@ def run_case(a):
                     common.write_tree(os.path.join(root, outnorm), [(f, "// stale generated file")])
                 except OSError:
                     pass
+            if idx % 3 == 0 and not os.path.isdir(os.path.join(root, outnorm, "index.ts")):
+                # an index.ts somebody extended by hand: it re-exports hand-written neighbours, a file in a subdirectory and one outside
+                # the directory. The file itself is the tool's to replace; what it mentions is not the tool's
+                hand = [p for p in planted if p.endswith(".ts") and os.path.dirname(p) == outnorm][:3]
+                lines = ["export * from './types';", "export * from './commands';"] + ["export * from './%s';" % os.path.basename(p)[:-3] for p in hand]
+                lines += ["export * from './helpers/util';", "export * from '../shared_api';", "export { x } from \"./custom\";"]
+                try:
+                    common.write_tree(os.path.join(root, outnorm), [("index.ts", "\n".join(lines) + "\n")])
+                    common.write_tree(os.path.join(root, os.path.dirname(outnorm)), [("shared_api.ts", "// foreign, next to the output directory")])
+                except OSError:
+                    pass
         st["foreign_planted"] = len(planted)
         preexisting = {p for p in planted}
         path = rnd.choice(["cli", "cli-rel", "cli-rel-deep", "build", "build-member", "init", "cli-config", "init-custom", "init-dotslash", "cli-flags-over-config", "cli-flags-over-config"])
